@@ -259,6 +259,9 @@ def check_property(prop, tier):
     trusted = [f'{k}: {v}' for k, v in core.GLOBAL_ASSUMPTIONS.items() if k in getattr(P, 'ASSUMES', core.GLOBAL_ASSUMPTIONS)]
     trusted += [f'cited lemma {x}' for x in getattr(P, 'LEMMAS', [])]
     trusted += meta.get('trusted', [])
+    for f, us in sorted(getattr(P, 'T1_CALLEES_ELSEWHERE', {}).items()):
+        trusted.append(f'callee contract of teneva {f} assumed at call sites and NOT discharged in this check (' +
+                       ('no unit verifies it' if not us else 'value contract, irrelevant to this frame property; discharged by ' + ', '.join(us)) + ')')
     cov = {
         'obligations': n_ob, 'discharged': len(proved),
         'checker_cmd': f'./check {prop} {tier}',
